@@ -110,6 +110,18 @@ NeverRewrittenBad(k, g) ==
         LET nd == Nodes(k)[j]
         IN \E idx \in nd.first..Min2(Min2(nd.commit, nd.last), Len(g)) : g[idx] # Unknown /\ E(nd, idx) # g[idx]}
 
+(* "never removes": an entry a node held at the previous line that equals the globally committed entry at its index *)
+(* is still held (or compacted away) now                                                                            *)
+RemovedBad(k, g) ==
+    IF k = 1 \/ Trace[k].ev = "reset" \/ Len(Nodes(k)) # Len(Nodes(k - 1)) THEN {}
+    ELSE {j \in Idx(k) :
+            LET p == Nodes(k - 1)[j]
+                q == Nodes(k)[j]
+            IN \E idx \in p.first..Min2(p.last, Len(g)) :
+                  /\ g[idx] # Unknown /\ E(p, idx) = g[idx]
+                  /\ idx >= q.first
+                  /\ ~(Has(q, idx) /\ E(q, idx) = g[idx])}
+
 (* a node that is leader of term T now and was not known as leader of T before must hold every entry of gc (as of *)
 (* the previous line) that became committed in a term < T                                                        *)
 LeaderCompletenessBad(k, ldrs, g, ct) ==
@@ -153,7 +165,7 @@ Next ==
            wf == WellFormedBad(k)
            lm == LogMatchingBad(k)
            sm == StateMachineSafetyBad(k)
-           nr == NeverRewrittenBad(k, g1)
+           nr == NeverRewrittenBad(k, g1) \cup RemovedBad(k, g0)
            lc == LeaderCompletenessBad(k, ldrs, g0, ct0)
            hm == HardStateBad(k)
            failed == {x \in {<<"ElectionSafety", es = {}>>, <<"WellFormed", wf = {}>>, <<"LogMatching", lm = {}>>,
